@@ -352,6 +352,13 @@ func (c *compiler) compileExpList(exps []ast.ExpNode, dstRegs []ir.Register) {
 		c.TakeRegister(dst)
 		dstRegs[i] = dst
 	}
+	if len(exps) > len(dstRegs) {
+		// There are more expressions than destinations: the extra ones are
+		// still evaluated, in order, and their values are thrown away.
+		for _, exp := range exps[len(dstRegs):] {
+			c.compileExpNoDestHint(exp)
+		}
+	}
 	for i := commonCount; i < len(dstRegs); i++ {
 		dst := c.GetFreeRegister()
 		c.TakeRegister(dst)
